@@ -7,7 +7,7 @@ import threading
 import vlib
 
 # event codes (harness/cmd/c03/main.go, Corr/C03.v)
-MSG, BAN, UNBAN, BLACK, UNBLACK, EXPIRE, DELETE, RATE, CLOSE, OPEN, REKEY, REGISTER, BADJSON, DELANON, CORRUPT = range(15)
+MSG, BAN, UNBAN, BLACK, UNBLACK, EXPIRE, DELETE, RATE, CLOSE, OPEN, REKEY, REGISTER, BADJSON, DELANON, CORRUPT, RESTART, BLACKC, UNBLACKC = range(18)
 A, B, E = 1, 2, 3          # clients registered by the setup prefix; E's credentials are expired
 UNKNOWN = 9001
 
@@ -61,6 +61,27 @@ def cred_cases(depth_one_conn, depth_two_conns):
         for seq in itertools.product(a12, repeat=d):
             if any(x[1] == 2 for x in seq):
                 yield case_of(SETUP_CRED + [list(x) for x in seq])
+
+
+def restart_cases():
+    """blacklist entries of every form (exact IP / CIDR, 1 h / permanent) must still gate after a restart over the same
+    storage; lapsed short-lived entries must not come back; bans and failure counts are in memory only"""
+    out = []
+    login_a = [msg(1, A), msg(1, A, key=-2)]
+    after = [[OPEN, 1, 0], [OPEN, 2, 1], msg(1, A), msg(1, A, key=-2), msg(1, 0, new=1), msg(1, E), msg(2, B), msg(2, B, key=-2)]
+    for add, rem in (([BLACK, 0, 0], [UNBLACK, 0]), ([BLACK, 0, 1], [UNBLACK, 0]), ([BLACKC, 0, 0], [UNBLACKC, 0]), ([BLACKC, 0, 1], [UNBLACKC, 0])):
+        for lapsed in (0, 1, 2):
+            for pre in ([], login_a):
+                out.append(case_of(SETUP2 + pre + [add, [RESTART, lapsed]] + after + [rem, msg(1, A), msg(1, A, key=-2)]))
+        out.append(case_of(SETUP2 + [add, rem, [RESTART, 0]] + after))
+        out.append(case_of(SETUP2 + [add, [RESTART, 0], [RESTART, 0]] + after))
+    # both forms at once, one removed; a ban and failures before the restart; credential state changes before the restart
+    out.append(case_of(SETUP2 + [[BLACK, 0, 1], [BLACKC, 0, 1], [UNBLACK, 0], [RESTART, 0]] + after))
+    out.append(case_of(SETUP2 + [[BLACK, 1, 1], [BAN, 0], msg(2, A), [RESTART, 0]] + after))
+    out.append(case_of(SETUP2 + [msg(1, A), msg(1, A, key=0), msg(1, A), msg(1, A, key=0), [RESTART, 0]] + after))
+    out.append(case_of(SETUP2 + [[CORRUPT, A, 0], [DELETE, B], [REKEY, E], [RESTART, 1]] + after))
+    out.append(case_of(SETUP2 + login_a + [msg(2, B), [RESTART, 0], msg(2, B, key=-2), msg(1, A, key=-2)] + after))
+    return out
 
 
 def case_of(ops, slots=(1, 2), addrs=(0, 1)):
@@ -120,9 +141,15 @@ def random_case(rng, nconn=3, naddr=2, length=None):
         elif r < 0.64:
             ops.append(msg(k, 0, new=0, key=rng.choice([-1, 0]), tun=tun))
         elif r < 0.70:
-            ops.append([rng.choice([BAN, BLACK]), rng.randrange(naddr)])
+            c = rng.choice([BAN, BLACK, BLACK, BLACKC])
+            ops.append([c, rng.randrange(naddr)] + ([rng.randrange(2)] if c != BAN else []))
+        elif r < 0.75:
+            ops.append([rng.choice([UNBAN, UNBLACK, UNBLACKC]), rng.randrange(naddr)])
         elif r < 0.76:
-            ops.append([rng.choice([UNBAN, UNBLACK]), rng.randrange(naddr)])
+            ops.append([RESTART, rng.choice([0, 0, 0, 1, 2])])
+            for kk in range(1, nconn + 1):
+                if rng.random() < 0.8:
+                    ops.append([OPEN, kk, rng.randrange(naddr)])
         elif r < 0.80:
             x = rng.choice(live)
             if x not in gone:
@@ -207,6 +234,10 @@ def enc_ev(op, st):
         return [REGISTER]
     if c == OPEN:
         return [OPEN, op[1], op[2]]
+    if c == BLACK:
+        return [BLACK, op[1]]
+    if c in (BLACKC, UNBLACKC, RESTART):
+        return [c, op[1]]
     if c == CORRUPT:
         return [CORRUPT, op[1], 1 if op[2] == 0 else 0]
     return [c, op[1]]
@@ -292,6 +323,7 @@ def run(ctx, only_cases=None):
         cases += ex
         cases += [random_case(rng) for _ in range(20000 if thorough else 2500)]
         cases += [lockout_case(rng) for _ in range(40 if thorough else 10)]
+        cases += restart_cases()
     outs = run_parallel(binary, cases)
 
     # (iii) the property predicate, evaluated by the harness' specification monitor on the real code's state and outputs
@@ -348,7 +380,7 @@ def run(ctx, only_cases=None):
     for c in cases:
         for op in c["ops"]:
             kinds[op[0]] = kinds.get(op[0], 0) + 1
-    names = ["msg", "ban", "unban", "blacklist", "unblacklist", "expire", "delete", "rate", "close", "open", "rekey", "register", "badjson", "delete_anonymous", "corrupt_stored_credential"]
+    names = ["msg", "ban", "unban", "blacklist", "unblacklist", "expire", "delete", "rate", "close", "open", "rekey", "register", "badjson", "delete_anonymous", "corrupt_stored_credential", "restart", "blacklist_cidr", "unblacklist_cidr"]
     ctx.coverage.update({
         "evaluations": len(cases), "distinct_nontrivial": len(nontrivial),
         "exhaustive": bool(exhaustive),
@@ -377,6 +409,11 @@ def run(ctx, only_cases=None):
         "time is not modelled: expiry, unban and un-blacklisting are explicit events; the IP whitelist is empty; GenerateAnonymousCredentials / "
         "GenerateChallenge / storage do not fail; fewer than 5000 control connections",
         "a ControlConnection object is identified with its connection id while registered (harness compares object identity)",
+        "restart = every server component rebuilt over the same storage (new fixture: IPManager, BruteForceProtector, RateLimiter, SessionManager, "
+        "cloud control, SecretKeyManager with the same master key): persistent = client configs and the IP black/white lists (ip_manager_storage.go); "
+        "in memory only = connections, registry, pending challenges, rate-limiter buckets and the brute-force failure records AND bans "
+        "(BruteForceProtector has no storage): a restart lifts every brute-force ban, so 'banned addresses are never authenticated' is proved and checked "
+        "for bans of the running process only; blacklist entries (exact IP and CIDR, permanent and unexpired) are proved and checked across restarts",
     ]
     if broken is not None:
         raise broken
